@@ -15,7 +15,9 @@ from .. import tlc
 from ..core import MachineryError
 from ..vloop import ms, virtual_world
 
-FAULTS = ["ok", "ok", "ok", "slow", "comm", "conv", "crash", "noconf"]
+# ok: confirmed inside the interface call; async: the L_Data.con arrives 40 ms after the call returned (a real gateway); latecon: it arrives
+# after the confirmation timeout (3.4 s), when nobody waits for it; dupcon: twice
+FAULTS = ["ok", "ok", "async", "async", "slow", "comm", "conv", "crash", "noconf", "latecon", "dupcon"]
 
 
 def run_hist(seed, n):
@@ -44,6 +46,12 @@ def run_hist(seed, n):
                 tid_ = cemi.data.payload.value.value[0]
                 f = plan.get(tid_, "ok")
                 ev.append({"ev": "send_start", "id": tid_, "t": ms(loop.time()), "kind": ""})
+                ok = 0
+
+                def con():
+                    ev.append({"ev": "con", "id": 0, "kind": "", "t": ms(loop.time())})
+                    xknx.cemi_handler._l_data_confirmation_event.set()
+
                 try:
                     if f == "slow":
                         await asyncio.sleep(0.7)
@@ -53,10 +61,18 @@ def run_hist(seed, n):
                         raise ConversionError("bad frame")
                     if f == "crash":
                         raise ValueError("unexpected")
-                    if f != "noconf":
-                        xknx.cemi_handler._l_data_confirmation_event.set()
+                    if f in ("ok", "slow"):
+                        con()
+                    elif f == "async":
+                        loop.call_later(0.04, con)
+                    elif f == "latecon":
+                        loop.call_later(3.4, con)
+                    elif f == "dupcon":
+                        con()
+                        loop.call_later(0.03, con)
+                    ok = 1
                 finally:
-                    ev.append({"ev": "send_end", "id": tid_, "t": ms(loop.time()), "kind": ""})
+                    ev.append({"ev": "send_end", "id": tid_, "ok": ok, "t": ms(loop.time()), "kind": ""})
 
             m.send_cemi = send_cemi
             xknx.task_registry.start()
